@@ -212,8 +212,11 @@ def parse_strace(path):
                         st["mapfds"].add(_num(res))
                     if m.group(1) == "uid_map":
                         st["parent"].append({"n": "idmap", "v": 0, "ok": ok})
+                        st["idmap_ev"] = st["parent"][-1]
             elif name in ("read", "write"):
                 fd = _num(args.split(",")[0])
+                if fd in st["mapfds"] and name == "write" and not ok and st.get("idmap_ev"):
+                    st["idmap_ev"]["ok"] = False      # one of the three id-map writes was refused
                 if fd == st["p0"]:
                     st["parent"].append({"n": "sock_" + name, "v": _num(res) if ok else 0, "ok": ok})
             elif name == "kill":
@@ -232,7 +235,7 @@ def parse_strace(path):
             if ev["n"] == "execve" and ev["ok"]:
                 st["childdone"] = True
     for st in out.values():
-        for k in ("p0", "p1", "open", "childdone", "mapfds"):
+        for k in ("p0", "p1", "open", "childdone", "mapfds", "idmap_ev"):
             st.pop(k, None)
     return out
 
@@ -262,3 +265,27 @@ def covering_rows(rng, nbits=9, strength=2, tries=40):
 
 def opt_on(o):
     return [k for k in SITE_KEYS + ROW_KEYS if o.get(k)]
+
+
+def par(*thunks):
+    """run thunks concurrently (staggered so that ctx's TLC run counter is not raced); re-raise the first error"""
+    import time
+    out = [None] * len(thunks)
+    errs = []
+
+    def w(i, f):
+        try:
+            out[i] = f()
+        except BaseException as ex:   # noqa
+            errs.append(ex)
+    ths = []
+    for i, f in enumerate(thunks):
+        t = threading.Thread(target=w, args=(i, f))
+        t.start()
+        ths.append(t)
+        time.sleep(0.4)
+    for t in ths:
+        t.join()
+    if errs:
+        raise errs[0]
+    return out
